@@ -3,3 +3,5 @@ import SSVerif.Proofs.HashTable
 import SSVerif.Proofs.HashTableOps
 import SSVerif.Proofs.HashTableModes
 import SSVerif.Props.C20
+import SSVerif.Model.Nfa
+import SSVerif.Proofs.Nfa
